@@ -197,6 +197,11 @@ def round53 (N : Int) (k : Nat) : Int × Nat :=
 /-- `Date(t) + s` resp. `Date(t) - (-s)` for the stored double `d` and whole seconds `s` -/
 def addSecD (d : Int × Nat) (s : Int) : Int × Nat := round53 (d.1 + s * 2 ^ d.2) d.2
 
+/-- `double Date::operator-(const Date&)`: the exact difference of the two stored doubles (common scale), rounded to binary64 -/
+def diffD (a b : Int × Nat) : Int × Nat :=
+  let K := max a.2 b.2
+  round53 (a.1 * 2 ^ (K - a.2) - b.1 * 2 ^ (K - b.2)) K
+
 /-- `operator<` on two stored doubles -/
 def ltD (a b : Int × Nat) : Bool := a.1 * 2 ^ b.2 < b.1 * 2 ^ a.2
 
